@@ -39,7 +39,7 @@ type StreamOp struct {
 }
 
 type Case struct {
-	Kind string `json:"kind"` // conc | sess | streams | race
+	Kind string `json:"kind"` // conc | sess | streams | race | storm
 	// conc: request t asks for session id Sids[t]; Gate = hold the process lock (as a concurrent
 	// Execute inside its critical section would) until every request is blocked on it
 	Sids  []int `json:"sids,omitempty"`
@@ -53,7 +53,19 @@ type Case struct {
 	// streams
 	Ops []StreamOp `json:"ops,omitempty"`
 	// race: Rounds rounds of free-running conc cases in a child process built with -race
+	// storm: Rounds rounds of N requests for one session id released by a barrier, GOMAXPROCS = Procs
 	Rounds int `json:"rounds,omitempty"`
+	N      int `json:"n,omitempty"`
+	Procs  int `json:"procs,omitempty"`
+	// streams, comm: Fails[x] = Close() of stream x returns an error
+	Fails []bool `json:"fails,omitempty"`
+	// comm
+	COps []CommOp `json:"cops,omitempty"`
+}
+
+type Round struct {
+	Refused []bool `json:"refused"`
+	MaxLive int    `json:"maxlive"`
 }
 
 type SObs struct {
@@ -80,6 +92,10 @@ type Obs struct {
 	ReuseOK   bool     `json:"reuse_ok,omitempty"`
 	// streams
 	SObs []SObs `json:"sobs,omitempty"`
+	// storm
+	Rounds []Round `json:"rounds,omitempty"`
+	// comm
+	CObs []CObs `json:"cobs,omitempty"`
 }
 
 // ---- environment --------------------------------------------------------------------------------
@@ -143,25 +159,6 @@ func retClass(err error) string {
 	return "process"
 }
 
-// goroutines blocked in processLock.Lock() called directly from Coordinator.Execute
-func blockedInExecute() int {
-	buf := make([]byte, 4<<20)
-	n := runtime.Stack(buf, true)
-	cnt := 0
-	for _, g := range strings.Split(string(buf[:n]), "\n\n") {
-		lines := strings.Split(g, "\n")
-		for i := 1; i+2 < len(lines); i += 2 {
-			if strings.HasPrefix(lines[i], "sync.(*Mutex).Lock") {
-				if strings.Contains(lines[i+2], "tss.(*Coordinator).Execute(") {
-					cnt++
-				}
-				break
-			}
-		}
-	}
-	return cnt
-}
-
 // reuse starts the session id again and reports whether it was admitted.
 func (e *env) reuse(sid string) bool {
 	e.answerInitiate()
@@ -171,7 +168,7 @@ func (e *env) reuse(sid string) bool {
 	go func() { done <- e.c.Execute(context.Background(), []tss.TssProcess{p}, make(chan interface{}, 1)) }()
 	var err error
 	returned := false
-	tssfakes.WaitFor(20*time.Second, func() bool {
+	waitFor(func() bool {
 		select {
 		case err = <-done:
 			returned = true
@@ -182,13 +179,32 @@ func (e *env) reuse(sid string) bool {
 	})
 	p.Release()
 	if !returned {
-		select {
-		case err = <-done:
-		case <-time.After(20 * time.Second):
+		var ok bool
+		if err, ok = recvErr(done); !ok {
 			return false
 		}
 	}
 	return retClass(err) != "pending"
+}
+
+// pending reads the pending flag of a session through the hook, with a bounded wait (the hook
+// takes the process lock); known = false if the hook cannot tell.
+func (e *env) pending(sid string) (pending, known bool) {
+	type res struct{ p, k bool }
+	ch := make(chan res, 1)
+	go func() {
+		p, k := e.c.VerifPending(sid)
+		ch <- res{p, k}
+	}()
+	t := time.NewTimer(patience())
+	defer t.Stop()
+	select {
+	case r := <-ch:
+		return r.p, r.k
+	case <-t.C:
+		expired()
+		return false, false
+	}
 }
 
 // ---- conc ---------------------------------------------------------------------------------------
@@ -196,6 +212,15 @@ func (e *env) reuse(sid string) bool {
 var roundCtr atomic.Int64
 
 func sidName(round int64, s int) string { return fmt.Sprintf("c09r%ds%d", round, s) }
+
+// c09Request is the body of every request goroutine of the admission cases (its name identifies
+// these goroutines in a stack dump, see parkedRequests).
+//
+//go:noinline
+func c09Request(c *tss.Coordinator, p *tssfakes.RecProcess, barrier <-chan struct{}, ret chan<- error) {
+	<-barrier
+	ret <- c.Execute(context.Background(), []tss.TssProcess{p}, make(chan interface{}, 1))
+}
 
 func runConc(c Case) Obs {
 	e := newEnv()
@@ -214,37 +239,10 @@ func runConc(c Case) Obs {
 		rets[t] = make(chan error, 1)
 	}
 	note := ""
-	barrier := make(chan struct{})
-	if c.Gate {
-		e.c.VerifLockProcesses()
-	}
-	for t := 0; t < n; t++ {
-		t := t
-		go func() {
-			<-barrier
-			rets[t] <- e.c.Execute(context.Background(), []tss.TssProcess{procs[t]}, make(chan interface{}, 1))
-		}()
-	}
-	close(barrier)
-	if c.Gate {
-		if !tssfakes.WaitFor(20*time.Second, func() bool { return blockedInExecute() >= n }) {
-			note = "gate: not every request reached the process lock"
-		}
-		// Hand the lock over in FIFO order: every request has now waited longer than a millisecond;
-		// releasing the lock and barging back in makes the woken waiter find it locked again, which
-		// puts Go's mutex into starvation mode (direct hand-off to the longest waiter, newcomers
-		// queue at the tail).  Every request then passes its first critical section before any of
-		// them gets the lock a second time - the adversarial schedule for check-then-act bugs.
-		time.Sleep(2 * time.Millisecond)
-		e.c.VerifUnlockProcesses()
-		e.c.VerifLockProcesses()
-		time.Sleep(2 * time.Millisecond)
-		e.c.VerifUnlockProcesses()
-	}
 	// decided: every request was refused or its process runs
 	got := make([]error, n)
 	have := make([]bool, n)
-	decided := func() bool {
+	ndecided := func() int {
 		k := 0
 		for t := 0; t < n; t++ {
 			if !have[t] {
@@ -258,10 +256,63 @@ func runConc(c Case) Obs {
 				k++
 			}
 		}
-		return k == n
+		return k
 	}
-	if !tssfakes.WaitFor(30*time.Second, decided) {
-		note += " undecided"
+	// quiet: no request makes progress any more - each one is decided or parked on some
+	// synchronisation primitive inside the coordinator's admission code
+	quiet := func() bool { return ndecided()+parkedRequests() >= n }
+
+	barrier := make(chan struct{})
+	locked := false
+	if c.Gate {
+		// play "another Execute call that is inside its critical section"
+		locked = e.c.VerifLockProcesses()
+		if !locked {
+			note = "gate: the coordinator has no process lock to hold; "
+		}
+	}
+	for t := 0; t < n; t++ {
+		go c09Request(e.c, procs[t], barrier, rets[t])
+	}
+	close(barrier)
+	if locked {
+		if !waitFor(quiet) {
+			note += "gate: requests neither decided nor parked; "
+		}
+		// Hand the lock over in FIFO order: every request has now waited longer than a millisecond;
+		// releasing the lock and barging back in makes the woken waiter find it locked again, which
+		// puts Go's mutex into starvation mode (direct hand-off to the longest waiter, newcomers
+		// queue at the tail).  Every request then passes its first critical section before any of
+		// them gets the lock a second time - the adversarial schedule for check-then-act bugs.
+		// With a readers-writer lock the same two steps let every reader that waited pass its
+		// read-locked section (the second Lock waits for all of them) and queue up for the write lock
+		// before the first writer gets it.
+		time.Sleep(2 * time.Millisecond)
+		again := make(chan struct{})
+		release := make(chan struct{})
+		go func() { // (a goroutine only so that a lock that never comes back cannot hang the runner)
+			e.c.VerifUnlockProcesses()
+			e.c.VerifLockProcesses()
+			close(again)
+			<-release
+			e.c.VerifUnlockProcesses()
+		}()
+		t := time.NewTimer(patience())
+		select {
+		case <-again:
+			time.Sleep(2 * time.Millisecond)
+			if !waitFor(quiet) {
+				note += "gate: requests neither decided nor parked after the first hand-over; "
+			}
+		case <-t.C:
+			expired()
+			note += "gate: the process lock did not come back; "
+		}
+		t.Stop()
+		close(release)
+	}
+	if !waitFor(func() bool { return ndecided() == n }) {
+		note += "undecided; "
 	}
 	o := Obs{Refused: make([]bool, n), MaxLive: make([]int, ns), PendingAfter: make([]bool, ns), Reuse: make([]bool, ns)}
 	for t := 0; t < n; t++ {
@@ -275,18 +326,103 @@ func runConc(c Case) Obs {
 	}
 	for t := 0; t < n; t++ {
 		if !have[t] {
-			select {
-			case got[t] = <-rets[t]:
-			case <-time.After(30 * time.Second):
-				note += " stuck"
+			var ok bool
+			if got[t], ok = recvErr(rets[t]); !ok {
+				note += "stuck; "
 			}
 		}
 	}
 	for s := 0; s < ns; s++ {
-		o.PendingAfter[s] = e.c.VerifPending(sidName(round, s))
+		pend, known := e.pending(sidName(round, s))
 		o.Reuse[s] = e.reuse(sidName(round, s))
+		if !known {
+			// the hook does not know how this implementation keeps its pending sessions: the flag
+			// shows in whether the id is admitted again
+			pend = !o.Reuse[s]
+		}
+		o.PendingAfter[s] = pend
 	}
 	o.Note = strings.TrimSpace(note)
+	return o
+}
+
+// ---- storm: free-running contention -------------------------------------------------------------------
+
+// stormRequest: two-stage barrier (a closed channel wakes the goroutines, then each one announces
+// itself and spins - yielding, for at most 20 ms - until all have), then Execute.
+//
+//go:noinline
+func stormRequest(c *tss.Coordinator, p *tssfakes.RecProcess, barrier <-chan struct{}, arrived *atomic.Int32, n int32, ret chan<- error) {
+	<-barrier
+	arrived.Add(1)
+	for dl := time.Now().Add(20 * time.Millisecond); arrived.Load() < n && time.Now().Before(dl); {
+		runtime.Gosched()
+	}
+	ret <- c.Execute(context.Background(), []tss.TssProcess{p}, make(chan interface{}, 1))
+}
+
+func runStorm(c Case) Obs {
+	if c.Procs > 0 {
+		defer runtime.GOMAXPROCS(runtime.GOMAXPROCS(c.Procs))
+	}
+	e := newEnv()
+	n := c.N
+	sid := sidName(roundCtr.Add(1), 0)
+	var o Obs
+	for round := 0; round < c.Rounds; round++ {
+		tracker := tssfakes.NewLiveTracker()
+		procs := make([]*tssfakes.RecProcess, n)
+		rets := make([]chan error, n)
+		barrier := make(chan struct{})
+		var arrived atomic.Int32
+		for t := range procs {
+			procs[t] = e.proc(sid, true)
+			procs[t].Tracker = tracker
+			rets[t] = make(chan error, 1)
+			go stormRequest(e.c, procs[t], barrier, &arrived, int32(n), rets[t])
+		}
+		close(barrier)
+		got := make([]error, n)
+		have := make([]bool, n)
+		decided := func() bool {
+			k := 0
+			for t := 0; t < n; t++ {
+				if !have[t] {
+					select {
+					case got[t] = <-rets[t]:
+						have[t] = true
+					default:
+					}
+				}
+				if have[t] || procs[t].Runs() > 0 {
+					k++
+				}
+			}
+			return k == n
+		}
+		ok := waitFor(decided)
+		refused := make([]bool, n)
+		for t := 0; t < n; t++ {
+			refused[t] = have[t] && retClass(got[t]) == "pending"
+		}
+		o.Rounds = append(o.Rounds, Round{Refused: refused, MaxLive: tracker.Max(sid)})
+		for _, p := range procs {
+			p.Release()
+		}
+		for t := 0; t < n; t++ {
+			if !have[t] {
+				if _, back := recvErr(rets[t]); !back {
+					ok = false
+				}
+			}
+		}
+		if !ok {
+			// a request that is neither refused nor running, or an Execute that does not return:
+			// recorded as observed (the judge sees the round), no further rounds on this coordinator
+			o.Note = fmt.Sprintf("round %d: not every request was decided / returned", round)
+			break
+		}
+	}
 	return o
 }
 
@@ -348,14 +484,14 @@ func runSessOnce(c Case, short time.Duration) (Obs, bool) {
 	if wantRun {
 		if !coord {
 			// the coordinator's initiate and start messages
-			e.comm.WaitSubscribed(sid, comm.TssStartMsg, 1, 20*time.Second)
+			waitFor(func() bool { return e.comm.Subscribers(sid, comm.TssStartMsg) >= 1 })
 			e.comm.Deliver(sid, comm.TssInitiateMsg, peers[1], []byte{})
 			sm, _ := tssmsg.MarshalStartMessage([]byte{})
 			e.comm.Deliver(sid, comm.TssStartMsg, peers[1], sm)
 		}
 		var early error
 		gotEarly := false
-		tssfakes.WaitFor(20*time.Second, func() bool {
+		waitFor(func() bool {
 			select {
 			case early = <-done:
 				gotEarly = true
@@ -372,11 +508,11 @@ func runSessOnce(c Case, short time.Duration) (Obs, bool) {
 	} else {
 		// make sure the wait loop is established before striking
 		if coord {
-			e.comm.WaitSubscribed(sid, comm.TssReadyMsg, 1, 20*time.Second)
+			waitFor(func() bool { return e.comm.Subscribers(sid, comm.TssReadyMsg) >= 1 })
 		} else {
-			e.comm.WaitSubscribed(sid, comm.TssStartMsg, 1, 20*time.Second)
+			waitFor(func() bool { return e.comm.Subscribers(sid, comm.TssStartMsg) >= 1 })
 		}
-		e.comm.WaitSubscribed(sid, comm.TssFailMsg, 1, 20*time.Second)
+		waitFor(func() bool { return e.comm.Subscribers(sid, comm.TssFailMsg) >= 1 })
 	}
 	switch c.Outcome {
 	case "success", "error":
@@ -386,14 +522,12 @@ func runSessOnce(c Case, short time.Duration) (Obs, bool) {
 	case "cancel":
 		cancel()
 	}
-	var err error
-	select {
-	case err = <-done:
-	case <-time.After(60 * time.Second):
+	err, back := recvErr(done)
+	if !back {
 		return Obs{Note: "Execute did not return"}, true
 	}
 	o := Obs{Ret: retClass(err), LiveAfter: e.tracker.TotalLive()}
-	pendingAfter := e.c.VerifPending(sid)
+	pendingAfter, pendingKnown := e.pending(sid)
 	for _, ev := range e.led.Snapshot() {
 		if ev.SID != sid && ev.Kind != "Unsub" {
 			continue
@@ -415,8 +549,11 @@ func runSessOnce(c Case, short time.Duration) (Obs, bool) {
 			o.Evs = append(o.Evs, fmt.Sprintf("EStop %d", i))
 		}
 	}
-	o.Evs = append(o.Evs, "EPend "+vgen.Bool(pendingAfter))
 	o.ReuseOK = e.reuse(sid)
+	if !pendingKnown {
+		pendingAfter = !o.ReuseOK
+	}
+	o.Evs = append(o.Evs, "EPend "+vgen.Bool(pendingAfter))
 	return o, ok
 }
 
@@ -453,6 +590,9 @@ func runStreams(c Case) Obs {
 	streams := make([]*tssfakes.MockStream, nx)
 	for i := range streams {
 		streams[i] = &tssfakes.MockStream{Name: fmt.Sprint(i)}
+		if i < len(c.Fails) && c.Fails[i] {
+			streams[i].CloseErr = errors.New("stream reset")
+		}
 	}
 	index := func(s network.Stream) *int {
 		for i, m := range streams {
@@ -518,6 +658,7 @@ func raceChild(rounds int) {
 		}
 		runConc(Case{Kind: "conc", Sids: sids})
 	}
+	runStorm(Case{Kind: "storm", N: 8, Rounds: rounds})
 }
 
 func runRace(c Case) Obs {
@@ -527,14 +668,20 @@ func runRace(c Case) Obs {
 		return Obs{Note: "no VERIF_WORK/VERIF_DIR: race run skipped"}
 	}
 	exe := filepath.Join(work, "implrun_race")
-	cmd := exec.Command("go", "build", "-race", "-modfile", filepath.Join(work, "go.mod"), "-tags", "verif",
+	bctx, bcancel := context.WithTimeout(context.Background(), 10*time.Minute)
+	defer bcancel()
+	cmd := exec.CommandContext(bctx, "go", "build", "-race", "-modfile", filepath.Join(work, "go.mod"), "-tags", "verif",
 		"-overlay", filepath.Join(work, "overlay.json"), "-o", exe, "./cmd/c09")
 	cmd.Dir = filepath.Join(dir, "harness")
 	cmd.Env = os.Environ()
 	if out, err := cmd.CombinedOutput(); err != nil {
 		return Obs{Note: "race build failed: " + tail(string(out), 400)}
 	}
-	run := exec.Command(exe)
+	// (bounded: a child that hangs on a changed implementation is killed; what it printed so far counts)
+	rctx, rcancel := context.WithTimeout(context.Background(), 90*time.Second+time.Duration(c.Rounds)*200*time.Millisecond)
+	defer rcancel()
+	run := exec.CommandContext(rctx, exe)
+	run.WaitDelay = 5 * time.Second
 	run.Env = append(os.Environ(), fmt.Sprintf("VERIF_C09_RACE_CHILD=%d", c.Rounds), "GORACE=halt_on_error=0 exitcode=66")
 	out, err := run.CombinedOutput()
 	races := strings.Count(string(out), "WARNING: DATA RACE")
@@ -567,6 +714,10 @@ func run(c Case) Obs {
 		return runStreams(c)
 	case "race":
 		return runRace(c)
+	case "storm":
+		return runStorm(c)
+	case "comm":
+		return runComm(c)
 	}
 	panic("unknown kind " + c.Kind)
 }
@@ -589,6 +740,12 @@ func completeSchedule(r *vgen.Rng, n int) []int {
 
 func gen(r *vgen.Rng, tier string) []Case {
 	var out []Case
+	// (gen runs once, before the first case: a normal quick run takes about 20 s)
+	if tier == "thorough" {
+		startWatchdog(40 * time.Minute)
+	} else {
+		startWatchdog(4 * time.Minute)
+	}
 	rounds := 4
 	nstreams := 120
 	if tier == "thorough" {
@@ -641,13 +798,98 @@ func gen(r *vgen.Rng, tier string) []Case {
 			case 3, 4:
 				ops = append(ops, StreamOp{Op: "get", S: r.Intn(nS), P: r.Intn(nP)})
 			case 5:
-				ops = append(ops, StreamOp{Op: "release", S: r.Intn(nS)})
+				s := r.Intn(nS)
+				ops = append(ops, StreamOp{Op: "release", S: s})
+				if r.Bool() {
+					// the next run of the same session id: fresh streams for some of its peers
+					for p := 0; p < nP; p++ {
+						if r.Bool() {
+							ops = append(ops, StreamOp{Op: "add", S: s, P: p, X: nx}, StreamOp{Op: "get", S: s, P: p})
+							nx++
+						}
+					}
+				}
 			}
 		}
-		for s := 0; s < nS; s++ {
-			ops = append(ops, StreamOp{Op: "release", S: s})
+		for pass := 0; pass < 2; pass++ { // (the second release of a session finds nothing left)
+			for s := 0; s < nS; s++ {
+				ops = append(ops, StreamOp{Op: "release", S: s})
+			}
 		}
-		out = append(out, Case{Kind: "streams", Ops: ops})
+		c := Case{Kind: "streams", Ops: ops}
+		// two thirds of the cases: some (a third, a half, all) of the streams fail to close
+		if mode := i % 6; mode >= 2 && nx > 0 {
+			c.Fails = make([]bool, nx)
+			for x := range c.Fails {
+				switch mode {
+				case 2, 3:
+					c.Fails[x] = r.Intn(3) == 0
+				case 4:
+					c.Fails[x] = r.Bool()
+				case 5:
+					c.Fails[x] = true
+				}
+			}
+		}
+		out = append(out, c)
+	}
+	// the real Libp2pCommunication: sends (each opens the stream of its (session, peer) on first
+	// use) and CloseSessions; every session is closed twice at the end
+	ncomm := 60
+	if tier == "thorough" {
+		ncomm = 800
+	}
+	for i := 0; i < ncomm; i++ {
+		var ops []CommOp
+		sends := 0
+		for k, m := 0, r.Range(5, 30); k < m; k++ {
+			if r.Intn(10) < 7 {
+				ops = append(ops, CommOp{Op: "send", S: r.Intn(3), P: r.Range(1, nCP-1)})
+				sends++
+			} else {
+				s := r.Intn(3)
+				ops = append(ops, CommOp{Op: "close", S: s})
+				if r.Bool() { // the same session id is started again
+					for p := 1; p < nCP; p++ {
+						if r.Bool() {
+							ops = append(ops, CommOp{Op: "send", S: s, P: p})
+							sends++
+						}
+					}
+				}
+			}
+		}
+		for pass := 0; pass < 2; pass++ {
+			for s := 0; s < 3; s++ {
+				ops = append(ops, CommOp{Op: "close", S: s})
+			}
+		}
+		c := Case{Kind: "comm", COps: ops}
+		if mode := i % 6; mode >= 2 && sends > 0 {
+			c.Fails = make([]bool, sends)
+			for x := range c.Fails {
+				switch mode {
+				case 2, 3:
+					c.Fails[x] = r.Intn(3) == 0
+				case 4:
+					c.Fails[x] = r.Bool()
+				case 5:
+					c.Fails[x] = true
+				}
+			}
+		}
+		out = append(out, c)
+	}
+	// free-running contention on one session id, with different numbers of OS threads
+	stormRounds := 400
+	if tier == "thorough" {
+		stormRounds = 4000
+	}
+	for _, procs := range []int{0, 8, 4, 2} {
+		out = append(out, Case{Kind: "storm", N: 8, Rounds: stormRounds, Procs: procs})
+	}
+	for n := 2; n <= 7; n++ {
+		out = append(out, Case{Kind: "storm", N: n, Rounds: stormRounds / 8, Procs: 0})
 	}
 	if tier == "thorough" {
 		out = append(out, Case{Kind: "race", Rounds: 600})
@@ -736,7 +978,31 @@ func coq(c Case, o Obs) string {
 			}
 			return "SNone"
 		})
-		return fmt.Sprintf("Streams %d%%nat %d%%nat %d%%nat ", nS, nP, nx) + vgen.List(ops) + " " + obs
+		fails := make([]bool, nx)
+		copy(fails, c.Fails)
+		return fmt.Sprintf("Streams %d%%nat %d%%nat %d%%nat ", nS, nP, nx) + vgen.ListOf(fails, vgen.Bool) + " " + vgen.List(ops) + " " + obs
+	case "comm":
+		ops := vgen.ListOf(c.COps, func(op CommOp) string {
+			if op.Op == "send" {
+				return fmt.Sprintf("CSend %d%%nat %d%%nat", op.S, op.P)
+			}
+			return fmt.Sprintf("CClose %d%%nat", op.S)
+		})
+		obs := vgen.ListOf(o.CObs, func(b CObs) string {
+			if b.IsSend {
+				x := noStream
+				if b.Wrote != nil && !b.Err {
+					x = *b.Wrote
+				}
+				return "CWrote " + vgen.Nat(x)
+			}
+			return "CClosed " + vgen.ListOf(b.Closed, vgen.Nat)
+		})
+		return fmt.Sprintf("Comm %d%%nat ", nCP) + vgen.ListOf(c.Fails, vgen.Bool) + " " + ops + " " + obs
+	case "storm":
+		return "Storm " + vgen.Nat(c.N) + " " + vgen.ListOf(o.Rounds, func(r Round) string {
+			return vgen.Pair(vgen.ListOf(r.Refused, vgen.Bool), vgen.Nat(r.MaxLive))
+		})
 	}
 	panic("kind")
 }
@@ -762,6 +1028,20 @@ func kind(c Case) string {
 		return k
 	case "sess":
 		return "sess/" + c.Outcome + "/" + c.Phase + "/" + c.Role
+	case "streams":
+		for _, f := range c.Fails {
+			if f {
+				return "streams/close-fails"
+			}
+		}
+	case "storm":
+		return fmt.Sprintf("storm/n%d/procs%d", c.N, c.Procs)
+	case "comm":
+		for _, f := range c.Fails {
+			if f {
+				return "comm/close-fails"
+			}
+		}
 	}
 	return c.Kind
 }
@@ -788,9 +1068,11 @@ func main() {
 				return kind(c) != "conc/distinct"
 			case "streams":
 				return len(c.Ops) > 6
+			case "comm":
+				return len(c.COps) > 8
 			}
 			return true
 		},
-		Rule: "admission: 2..8 overlapping Execute calls x {equal, distinct, mixed session ids} x {natural schedule, all requests held at the process lock first}; sessions: role x outcome x phase x 1..3 processes, each followed by a restart of the same id; streams: random AddStream/Stream/ReleaseStreams sequences on the real StreamManager; distinct = distinct input JSON; non-trivial = admission cases with at least two requests for one id, every session case, stream cases with more than 6 operations",
+		Rule: "admission: 2..8 overlapping Execute calls x {equal, distinct, mixed session ids} x {natural schedule, all requests held until none makes progress, then let through one critical section at a time}; storm: hundreds of rounds of 2..8 free-running requests for one session id released by a barrier, with 16/8/4/2 OS threads; sessions: role x outcome x phase x 1..3 processes, each followed by a restart of the same id; comm: random sequences of single-peer Broadcasts and CloseSessions on the real Libp2pCommunication over a fake host (two thirds with streams whose Close fails); streams: random AddStream/Stream/ReleaseStreams sequences on the real StreamManager, two thirds of them with streams whose Close fails, releases followed by fresh streams for the same session id; distinct = distinct input JSON; non-trivial = admission cases with at least two requests for one id, every session case, stream cases with more than 6 operations",
 	})
 }
